@@ -11,7 +11,30 @@ def wire_bodies(F):
 
 def run(ctx):
     F, R = ctx.facts, ctx.report
-    R.explanation = "ORD-1 byte-order discipline of every numeric wire primitive reference in dlt.rs/parse.rs (T-generic, spec-fixed, impl and paired dispatch contexts)."
+    R.explanation = ("ORD-1 byte-order discipline of every numeric wire primitive reference; WIRE: the serialised layout of every well-formed argument shape, payload kind, header and of the whole message equals the DLT layout (field order, widths, byte-order class, source field, length-prefix arithmetic); "
+                     "CONS/ORDER/HINT: every Ok exit of the parser returns input[A+L..] and requires the whole declared message, Incomplete hints never exceed the shortfall - bytes behind the message do not influence the result.")
     R.not_decided = ["equality of field values through nom/byteorder/String conversions (trusted library semantics)", "the round-trip equality itself (runtime values)"]
     n = lib_ord.check(ctx, wire_bodies(F), "ORD-1", PAIRED)
     R.floor("ORD-1", 90)
+    wire_and_consumption(ctx)
+
+
+def wire_and_consumption(ctx, cons=True):
+    """WIRE: the writer's byte layout per input shape against the spec layout (arguments, payload kinds, the three
+    headers, message assembly); CONS/ORDER/HINT: the parser consumes exactly the declared message and nothing behind it
+    influences the verdict (shared with C04/C05)."""
+    from rules import lib_wire
+    R = ctx.report
+    rows = lib_wire.check_writer(ctx, "WIRE-W")
+    R.floor("WIRE-W.shape", 40)
+    lib_wire.check_len(ctx, rows, "WIRE-L")
+    lib_wire.check_payload(ctx, "WIRE-P")
+    R.floor("WIRE-P", 4)
+    lib_wire.check_headers(ctx, "WIRE-H")
+    R.floor("WIRE-H", 11)
+    lib_wire.check_message(ctx, "WIRE-M")
+    R.floor("WIRE-M", 8)
+    if cons:
+        from rules import C04, lib_incomplete
+        C04.run_cons(ctx)
+        lib_incomplete.check(ctx)
